@@ -593,7 +593,14 @@ def softmax_rows(d, seed):
     """all rows of dimension d over the alphabet whose exact sum is < 1"""
     A = softmax_alphabet(seed)
     rows = [r for r in itertools.product(A, repeat=d) if sum(r) < 100]
-    return np.array(rows, dtype=np.float64) / 100.0
+    rows = np.array(rows, dtype=np.float64) / 100.0
+    # interior points with very small components (dyadic, so that the stencil steps stay exact): the product of
+    # the components spans 2^-80 .. 2^-2
+    small = [2.0 ** -20, 2.0 ** -12, 2.0 ** -4, 0.25]
+    extra = [r for r in itertools.product(small, repeat=d) if sum(r) < 1.0 and min(r) < 2.0 ** -4]
+    if extra:
+        rows = np.vstack([rows, np.array(extra, dtype=np.float64)])
+    return rows
 
 
 def softmax_ygrid(d, tier):
